@@ -12,6 +12,14 @@ import copy
 
 _numtypes = (int, np.int64, float, np.float64)
 
+def _float(x):
+    # values are held as floating point (or symbolic) arrays: sums, products and
+    # negation of integer arrays wrap around silently (int8, uint8 ...)
+    if isinstance(x, np.ndarray) and x.dtype.kind in 'iub':
+        return x.astype(np.float64)
+    return x
+
+
 class SMUserList(UserList, ABC):
     """
     List properties for spatial math classes
@@ -183,7 +191,7 @@ class SMUserList(UserList, ABC):
             # it's a numpy array
             x = self._import(arg, check=check)
             if x is not None:
-                self.data = [x]
+                self.data = [_float(x)]
             else:
                 return False
 
@@ -195,7 +203,7 @@ class SMUserList(UserList, ABC):
 
             elif isinstance(arg[0], np.ndarray):
                 # possibly a list of numpy arrays
-                self.data = [self._import(x, check=check) for x in arg]
+                self.data = [_float(self._import(x, check=check)) for x in arg]
                 if any(x is None for x in self.data):
                     raise ValueError('invalid element in list passed to constructor')
 
@@ -208,7 +216,7 @@ class SMUserList(UserList, ABC):
                 self.data = [x.A for x in arg]
 
             elif argcheck.isnumberlist(arg) and len(self.shape) == 1 and len(arg) == self.shape[0]:
-                self.data = [np.array(arg)]
+                self.data = [_float(np.array(arg))]
 
             else:
                 return False
